@@ -287,6 +287,35 @@ def _own_inside(node, anc):
     return False
 
 
+
+def _harms_outstanding(st):
+    for n in ast.walk(st):
+        if isinstance(n, ast.Call):
+            f = n.func
+            nm = f.attr if isinstance(f, ast.Attribute) else (
+                f.id if isinstance(f, ast.Name) else "")
+            if nm in ("pop", "popitem", "clear", "send", "sendto",
+                      "callback", "appendleft", "append", "remove") or \
+                    "callback" in nm:
+                return True
+        elif isinstance(n, ast.Delete):
+            return True
+        elif isinstance(n, (ast.Assign, ast.AugAssign)):
+            tg = n.targets if isinstance(n, ast.Assign) else [n.target]
+            for t in tg:
+                if isinstance(t, ast.Attribute) and t.attr == "n_tries":
+                    return True
+                if isinstance(t, ast.Attribute) and \
+                        t.attr in ("timeout_time", "deadline"):
+                    if not (isinstance(n, ast.AugAssign) and
+                            isinstance(n.op, ast.Add)):
+                        return True
+                if isinstance(t, ast.Subscript):
+                    return True     # an entry of a table replaced
+        elif isinstance(n, (ast.Raise, ast.Return)):
+            return True
+    return False
+
 def r2_fresh(program, rep, B, folder):
     T, inst = B.T, B.inst
     fresh = (mk_cmp("In", B.KEY, B.TABLE), False) in B.facts()
@@ -883,22 +912,44 @@ def r5_codes(program, rep, folder, fn, fl, cfg, inst):
         quiet = True
         seen = set()
         stack = list(n.succ)
-        # up to the next loop head / test node
+        # the statements of the branch taken for a retryable code: the body
+        # of the ``if`` the test belongs to (tests nested in that body are
+        # gone through), up to the next loop head / test outside it
+        owner_if = getattr(n.ast, "_parent", None)
+        while owner_if is not None and not isinstance(owner_if, ast.If):
+            owner_if = getattr(owner_if, "_parent", None)
+        body_ = owner_if.body if owner_if is not None else []
+
+        def in_branch(node_):
+            a_ = getattr(node_, "ast", None)
+            return a_ is not None and any(_own_inside(a_, b_)
+                                          for b_ in body_)
         while stack:
             x = stack.pop()
-            if x.id in seen or x.kind in ("test", "join", "iter") or \
-                    getattr(x, "label", None) == "foriter":
+            if x.id in seen or x.kind in ("join", "iter") or \
+                    getattr(x, "label", None) == "foriter" or \
+                    (x.kind == "test" and not in_branch(x)):
                 # (the next test / the head of the enclosing loop, of either
                 # kind: taking the next element is not an effect of the
                 # branch)
                 continue
             seen.add(x.id)
-            if fl.node_defs.get(x.id):
-                quiet = False
+            if x.kind in ("test", "assume"):
+                stack += x.succ
+                continue
+            if x.kind == "stmt" and not in_branch(x) and body_:
+                continue
             if x.kind == "stmt" and not isinstance(x.ast, (ast.Pass,
                                                           ast.Continue)):
-                # (``continue`` goes on to the next datagram: no effect)
-                quiet = False
+                # (``continue`` goes on to the next datagram: no effect.)
+                # What must not happen to a command answered 'busy': it is
+                # not completed (no callback, not taken out of the table),
+                # not sent again at once, its try count is not touched and
+                # its deadline is not brought forward.  Other bookkeeping
+                # (a deadline postponed with +=, a note that the machine was
+                # busy) leaves the treatment 'as a lost reply' intact.
+                if _harms_outstanding(x.ast):
+                    quiet = False
             stack += x.succ
         rep.check(quiet, "C06-R5", inst, "a retryable error reply "
                   "changes no state (treated as a lost reply)",
